@@ -22,6 +22,20 @@ impl<'a> DataRecorder for VecRecorder<'a> {
     }
 }
 
+/// recorder that takes at most `max` bytes per call (a legitimate DataRecorder: `write` returns
+/// the count it took)
+pub struct ShortRecorder<'a> {
+    pub out: &'a mut Vec<u8>,
+    pub max: usize,
+}
+impl<'a> DataRecorder for ShortRecorder<'a> {
+    fn write(&mut self, buf: &[u8]) -> Result<usize, IoError> {
+        let n = buf.len().min(self.max.max(1));
+        self.out.extend_from_slice(&buf[..n]);
+        Ok(n)
+    }
+}
+
 /// recorder that accepts `limit` bytes and then refuses (Ok(0)) or fails (Err)
 pub struct FailingRecorder {
     pub taken: usize,
@@ -274,7 +288,14 @@ pub fn check(c: &Case, rec: &mut Rec) -> Result<(), String> {
     }
     // (a) save
     let mut file = Vec::new();
-    e.save_snapshot(SnapshotRecorder::Sna(VecRecorder(&mut file))).map_err(|x| format!("save_snapshot failed: {:?}", x))?;
+    // the host's recorder takes everything at once, or only a few bytes per call
+    let short = [0usize, 0, 1, 5, 1000, 16383][(c.ram_seed >> 40) as usize % 6];
+    if short == 0 {
+        e.save_snapshot(SnapshotRecorder::Sna(VecRecorder(&mut file))).map_err(|x| format!("save_snapshot failed: {:?}", x))?;
+    } else {
+        e.save_snapshot(SnapshotRecorder::Sna(ShortRecorder { out: &mut file, max: short })).map_err(|x| format!("save_snapshot into a recorder that takes {} bytes per call failed: {:?}", short, x))?;
+        rec.class("recorder-with-short-writes");
+    }
     rec.eval();
     let after = read_state(&mut e, machine);
     if after.regs != before.regs {
@@ -539,7 +560,7 @@ pub fn replay(run: &mut Run, phase: &str, case: &serde_json::Value) -> Result<()
 }
 
 pub const LEVEL: &str = "exploration";
-pub const RULE: &str = "case = machine x arbitrary register file (alternates, I, R, IM, IFF1/IFF2) x border x 128K latch (all 256 values incl. lock, bank 5/2 paged at 0xC000) x RAM contents (seeded pattern + sparse edits in every bank) x SP anywhere (a quarter of the cases at a 16 KiB page boundary +-2, so that the two bytes below SP lie in different pages) x receiver in {same emulator after 1..4 frames of a scrambling program, fresh, halted, stopped mid DD-chain, paging locked + other border, EI pending, stopped by a breakpoint somewhere inside a frame}. A seventh of the saved machines are halted; in a fifth of the cases the host's recorder first refuses data after a generated number of bytes (the failed save must leave the machine as it was). Checked: (a) registers, every RAM bank, latch and border read through hooks are identical before and after save_snapshot, and the produced file parsed by the harness' own SNA parser describes that state; (b) after load_snapshot of the produced file every carried item, the latch with its lock, every RAM byte and all 65536 CPU-visible bytes equal the saved state; (c) the next 10 instructions, with the frame interrupt arriving on the way (or, in a third of the cases, already active when the loaded machine starts), match the reference machine continuing from the saved state; (d) the restored machine is then saved again and that file loaded into a fresh emulator must give the state it had (second generation). non-trivial = alternate set differs from main set, >= 2 RAM edits, receiver not fresh; distinct = hash of the case";
+pub const RULE: &str = "case = machine x arbitrary register file (alternates, I, R, IM, IFF1/IFF2) x border x 128K latch (all 256 values incl. lock, bank 5/2 paged at 0xC000) x RAM contents (seeded pattern + sparse edits in every bank) x SP anywhere (a quarter of the cases at a 16 KiB page boundary +-2, so that the two bytes below SP lie in different pages) x receiver in {same emulator after 1..4 frames of a scrambling program, fresh, halted, stopped mid DD-chain, paging locked + other border, EI pending, stopped by a breakpoint somewhere inside a frame}. A seventh of the saved machines are halted; the host's recorder takes the file all at once or 1/5/1000/16383 bytes per call; in a fifth of the cases the host's recorder first refuses data after a generated number of bytes (the failed save must leave the machine as it was). Checked: (a) registers, every RAM bank, latch and border read through hooks are identical before and after save_snapshot, and the produced file parsed by the harness' own SNA parser describes that state; (b) after load_snapshot of the produced file every carried item, the latch with its lock, every RAM byte and all 65536 CPU-visible bytes equal the saved state; (c) the next 10 instructions, with the frame interrupt arriving on the way (or, in a third of the cases, already active when the loaded machine starts), match the reference machine continuing from the saved state; (d) the restored machine is then saved again and that file loaded into a fresh emulator must give the state it had (second generation). non-trivial = alternate set differs from main set, >= 2 RAM edits, receiver not fresh; distinct = hash of the case";
 pub const ASSUMPTIONS: &[&str] = &[
     "48K proviso of the property (two bytes below SP are RAM) is a generator-side skip, counted; on the 48K the two bytes below SP may hold PC after a load (format)",
     "IFF1 is not carried by the format: only IFF2 is compared",
